@@ -696,7 +696,8 @@ class BrownianInterval(brownian_base.BaseBrownian, _Interval):
         if self._cache_size is None:  # cache_size=None corresponds to infinite cache.
             cache_size = 100
         else:
-            cache_size = min(self._cache_size, 100)
+            # (At least 1: cache_size=0 would give a piece length of zero, which no interval is ever shorter than.)
+            cache_size = max(min(self._cache_size, 100), 1)
 
         self._tree_dt = min(self._tree_dt, dt)
         # Rationale: We are prepared to hold `cache_size` many things in memory, so when making steps of size `dt`
